@@ -65,7 +65,7 @@ def generate(rng, run, tier):
                 "integration": integration, "sink": rng.choice(["bytesio", "raw"])}
     plan["kind"] = kind
     plan["consumer"] = rng.choice(["flat", "flat", "grouped"])
-    plan["frontend"] = rng.choice(["raw", "raw", "buffered", "duck", "rwpair"])
+    plan["frontend"] = rng.choice(["raw", "raw", "buffered", "duck", "rwpair", "greedy", "strict", "autoclose"])
     return plan
 
 
